@@ -135,7 +135,8 @@ TreeOK(T) ==
   /\ Cardinality(TNodes(T)) = T.n
   /\ Laminar(T)
   /\ Cardinality({x \in T.nodes : x.d = 0}) = 1
-  /\ ~Root(T).tok /\ Root(T).y = 1..T.n
+  \* (the root is a constituent, except in the one-node tree a collapsed one-token sentence becomes)
+  /\ (~Root(T).tok \/ Cardinality(T.nodes) = 1) /\ Root(T).y = 1..T.n
   /\ \A x \in T.nodes : x.d = Cardinality(Ancs(T, x))
   /\ \A a, b \in T.nodes : (a.y = b.y /\ a.d = b.d /\ a.tok = b.tok) => a = b
 
